@@ -107,6 +107,11 @@ func runC02(r *core.Run) {
 				keep[counts[0]] = true
 			}
 		}
+		if r.Chance(6, "empty-table?") {
+			// an authentic endorsement that lists no SEV-SNP measurement at all
+			keep = map[uint32]bool{}
+			r.Probe("empty-measurement-table")
+		}
 		for _, c := range counts {
 			if keep[c] {
 				table[c] = g.SevSnp.Measurements[c]
@@ -276,6 +281,15 @@ func runC02(r *core.Run) {
 			for c := range table {
 				counts = append(counts, c)
 			}
+			// (an endorsement that lists nothing: the firmware's real measurements are what reports
+			// carry, none of them listed)
+			src := table
+			if len(counts) == 0 {
+				src = full.Golden.SevSnp.Measurements
+				for c := range src {
+					counts = append(counts, c)
+				}
+			}
 			sort.Slice(counts, func(i, j int) bool { return counts[i] < counts[j] })
 			// named count
 			var named uint32
@@ -283,6 +297,9 @@ func runC02(r *core.Run) {
 			switch r.Intn(4, "named-count") {
 			case 1:
 				named, cfgClass = counts[r.Intn(len(counts), "listed-count")], "listed"
+				if _, ok := table[named]; !ok {
+					cfgClass = "unlisted"
+				}
 			case 2:
 				for _, c := range []uint32{1, 2, 3, 4, 5, 8, 16, 224, 240, 999} {
 					if _, ok := table[c]; !ok && !(c == 1 && len(svsm) > 0) {
@@ -307,9 +324,9 @@ func runC02(r *core.Run) {
 				if _, ok := table[c]; !ok {
 					c = counts[r.Intn(len(counts), "meas-count")]
 				}
-				meas, measClass = table[c], "listed-for-named-or-some"
+				meas, measClass = src[c], "listed-for-named-or-some"
 			case 2:
-				meas, measClass = table[counts[r.Intn(len(counts), "meas-other-count")]], "listed-for-drawn-count"
+				meas, measClass = src[counts[r.Intn(len(counts), "meas-other-count")]], "listed-for-drawn-count"
 			case 3:
 				oc := otherIs.Golden.SevSnp.Measurements
 				var ocs []uint32
@@ -319,14 +336,14 @@ func runC02(r *core.Run) {
 				sort.Slice(ocs, func(i, j int) bool { return ocs[i] < ocs[j] })
 				meas, measClass = oc[ocs[r.Intn(len(ocs), "other-image-count")]], "other-image"
 			case 4:
-				meas, measClass = flipBit(table[counts[r.Intn(len(counts), "nb-count")]], r.Intn(384, "nb-bit")), "one-bit-neighbour"
+				meas, measClass = flipBit(src[counts[r.Intn(len(counts), "nb-count")]], r.Intn(384, "nb-bit")), "one-bit-neighbour"
 			case 5:
 				l := []int{0, 47, 49}[r.Intn(3, "bad-len")]
 				meas, measClass = bytes.Repeat([]byte{0x11}, l), "wrong-length"
 				if l == 47 {
-					meas = table[counts[0]][:47]
+					meas = src[counts[0]][:47]
 				} else if l == 49 {
-					meas = append(append([]byte(nil), table[counts[0]]...), 0)
+					meas = append(append([]byte(nil), src[counts[0]]...), 0)
 				}
 			case 6:
 				if len(svsm) > 0 {
@@ -334,7 +351,7 @@ func runC02(r *core.Run) {
 				} else {
 					meas, measClass = full.Golden.SevSnp.Measurements[pickDropped(full.Golden.SevSnp.Measurements, table)], "dropped-from-table"
 					if meas == nil {
-						meas, measClass = table[counts[0]], "listed-for-drawn-count"
+						meas, measClass = src[counts[0]], "listed-for-drawn-count"
 					}
 				}
 			default:
